@@ -21,8 +21,9 @@ type Conv struct {
 	Skip  string
 	Hooks Hooks
 	// Sites counts the list-construct sites built.
-	Sites int
-	bases map[string]*Statement
+	Sites  int
+	bases  map[string]*Statement
+	cursor interface{}
 }
 
 // selectorChain returns the dotted text of a pure chain of identifiers, "" for anything else.
@@ -51,6 +52,10 @@ type Hooks struct {
 	// EarlyAdd adds every top-level declaration's (still empty) statement to the File first and
 	// completes it afterwards through the retained pointer - the DSL holds statements by reference.
 	EarlyAdd bool
+	// LitViaFunc builds every literal through LitFunc / LitRuneFunc with a callback that reads a
+	// cursor the translator keeps overwriting - the generator-loop idiom; the callbacks are
+	// documented to run once, inside the constructing call.
+	LitViaFunc bool
 }
 
 // grp builds one list construct on s.
@@ -111,12 +116,37 @@ func (c *Conv) listOrOne(es []ast.Expr) *Statement {
 	return c.grp(newSt(), "List", c.exprs(es)...)
 }
 
+// litValue builds the literal for v: directly, or (LitViaFunc) through a callback reading a
+// cursor that has moved on by the time the file is rendered.
+func (c *Conv) litValue(v interface{}) *Statement {
+	if !c.Hooks.LitViaFunc {
+		if r, ok := v.(rune); ok {
+			return LitRune(r)
+		}
+		return Lit(v)
+	}
+	c.cursor = v
+	var s *Statement
+	if _, ok := v.(rune); ok {
+		s = LitRuneFunc(func() rune {
+			if r, ok := c.cursor.(rune); ok {
+				return r
+			}
+			return 0x2620
+		})
+	} else {
+		s = LitFunc(func() interface{} { return c.cursor })
+	}
+	c.cursor = "cursor moved on"
+	return s
+}
+
 func (c *Conv) lit(l *ast.BasicLit) *Statement {
 	switch l.Kind {
 	case token.INT:
 		v := constant.MakeFromLiteral(l.Value, token.INT, 0)
 		if i, ok := constant.Int64Val(v); ok {
-			return Lit(int(i))
+			return c.litValue(int(i))
 		}
 		return Op(l.Value)
 	case token.FLOAT:
@@ -128,7 +158,7 @@ func (c *Conv) lit(l *ast.BasicLit) *Statement {
 		if !math.IsInf(f, 0) && !math.IsNaN(f) {
 			short := constant.MakeFromLiteral(strconv.FormatFloat(f, 'g', -1, 64), token.FLOAT, 0)
 			if short.Kind() != constant.Unknown && constant.Compare(short, token.EQL, v) {
-				return Lit(f)
+				return c.litValue(f)
 			}
 		}
 		return Op(l.Value)
@@ -143,13 +173,13 @@ func (c *Conv) lit(l *ast.BasicLit) *Statement {
 		if len(r) != 1 || r[0] == 0xFFFD && !strings.Contains(l.Value, "\\uFFFD") && !strings.Contains(l.Value, "\\ufffd") && !strings.Contains(l.Value, "�") {
 			return Op(l.Value) // e.g. '\xff' is not a valid code point as rune->string round trip
 		}
-		return LitRune(r[0])
+		return c.litValue(r[0])
 	case token.STRING:
 		s, err := strconv.Unquote(l.Value)
 		if err != nil {
 			return Op(l.Value)
 		}
-		return Lit(s)
+		return c.litValue(s)
 	}
 	return Op(l.Value)
 }
